@@ -292,6 +292,9 @@ func crlPlanDesc(p *CRLPlan) string {
 	if p.NumberAbs {
 		s += "/no_number"
 	}
+	if p.EarlyThis {
+		s += "/this_update_before_base"
+	}
 	if len(es) > 0 {
 		s += "/entries=[" + strings.Join(es, ",") + "]"
 	}
